@@ -31,6 +31,10 @@ TOKEN_POOL = ["loop", "end", "while", "repeat", "let", "declare", "bits", "reset
               "ite(1,2)", "ite(1,2,3,4)", "bits(65,1)", "bits(0,1)", "1 2", "\n", "#"]
 PER_FOCUS = 250
 SIZE = {"C12": 2000, "C11": 1000, "C10": 750, "C17": 400}
+# cases appended behind the first SIZE ones (so that those stay as recorded): constellations the first generator never builds -
+# a header column shared by two signals (`IO_out` is the expected column of the bidirectional IO *and* of an output or a declared
+# virtual signal that is itself called IO_out) with different widths; an input the header omits in front of listed ones
+EXTRA = {"C07": 80, "C06": 80, "C03": 60, "C14": 40, "C02": 40, "C05": 40}
 
 BINOPS = ["+", "-", "*", "/", "%", "&", "|", "^", "<<", ">>", "=", "!=", "<", ">", "<=", ">="]
 VARS = ["a", "b", "c", "i", "j", "k", "n", "x", "y"]
@@ -38,8 +42,9 @@ LITS = [0, 1, 2, 3, 5, 7, 8, 15, 16, 255, 256, 1000, 65535, 4294967296, 92233720
 
 
 class Gen:
-    def __init__(self, rnd, focus):
+    def __init__(self, rnd, focus, exotic=False):
         self.r, self.focus = rnd, focus
+        self.exotic = exotic
         self.lines = []
         self.rows_budget = 24
         self.shadow = []
@@ -209,7 +214,17 @@ class Gen:
             sigs.append(("in", nm, r.choice(widths), d))
         for nm in r.sample(["Y", "Q", "R", "W"], r.randrange(1, 4)):
             sigs.append(("out", nm, r.choice(widths), None))
-        if self.p(0.35 if f == "C06" else 0.12):
+        shared = None
+        if self.exotic:
+            wio = r.choice(widths)
+            sigs.append(("bidir", "IO", wio, r.choice(["Z", "0", "3"])))
+            if self.p(0.6):
+                w2 = r.choice([w for w in widths if w != wio])
+                sigs.append(("out", "IO_out", w2, None))
+                shared = max(wio, w2)
+            else:
+                shared = 64
+        elif self.p(0.35 if f == "C06" else 0.12):
             sigs.append(("bidir", "IO", r.choice(widths), r.choice(["Z", "0", "3"])))
         if f == "C06" or self.p(0.4):
             r.shuffle(sigs)
@@ -222,17 +237,26 @@ class Gen:
         for s in keep_in:
             cols.append((s[1], "in", s[2]))
         for s in outs_:
+            if s[1] == "IO_out":
+                continue
             if self.p(0.85):
                 cols.append((s[1], "out", s[2]))
         for s in sigs:
             if s[0] == "bidir":
                 if self.p(0.8):
                     cols.append((s[1], "in", s[2]))
-                if self.p(0.8):
+                if shared is not None:
+                    # one column, two signals of different width: literals as wide as the wider one
+                    cols.append((s[1] + "_out", "out", shared))
+                elif self.p(0.8):
                     cols.append((s[1] + "_out", "out", s[2]))
         ndecl = r.randrange(1, 3) if f == "C14" else (1 if self.p(0.1) else 0)
         outnames = [s[1] for s in sigs if s[0] in ("out", "bidir")]
         decls = []
+        if self.exotic and not any(s[1] == "IO_out" for s in sigs):
+            save, self.out_reads = self.out_reads, True
+            decls.append(("IO_out", self.expr([], 2, [n for n in outnames if n != "IO_out"])))
+            self.out_reads = save
         for k in range(ndecl):
             save, self.out_reads = self.out_reads, True
             decls.append((f"V{k + 1}", self.expr([], 2, outnames)))
@@ -437,10 +461,14 @@ class Draws:
 
 
 def generate(focus, n=None):
-    n = n or SIZE.get(focus, PER_FOCUS)
+    base = SIZE.get(focus, PER_FOCUS)
+    n = n or base + EXTRA.get(focus, 0)
     cases = []
     for k in range(n):
         rnd = random.Random(f"{focus}/{k}")
+        if k >= base:
+            cases.append(Gen(rnd, focus, exotic=True).scenario())
+            continue
         if focus == "C17":
             cases.append(Draws(rnd).scenario())
         elif focus == "C12":
